@@ -61,6 +61,7 @@ f411dd9:C17
 a487d12:C17
 50e2d9c:C17
 a96e78b:C18
+be32cad:C17
 "
 [ -n "$REVERT_ONLY" ] && PAIRS="$REVERT_ONLY"
 for pair in $PAIRS; do
